@@ -330,3 +330,211 @@ def rule_selector_above_encoding(ctx):
             n += 1
             r.check(encoded_before(s), "%s|selector" % b.id, "selector-before-encoding", "selector computed on a solver that has been encoded (here or by every caller)", "a selector is taken from n_vars() before the encoder declared its variables: it can collide with an argument / range variable", s.loc())
     r.floor(n, 4, "selector allocation sites in static solvers")
+
+
+# ------------------------------------------------------------------------------------------
+# clause templates of the encoders vs the reference encodings named by the property
+
+from .. import cnf  # noqa: E402
+from ..flow import switch_subject  # noqa: E402
+
+
+def _norm_node(n):
+    if n == ("each-arg",):
+        return "s"
+    if isinstance(n, tuple) and n and n[0] == "attacker":
+        inner = _norm_node(n[1])
+        return "a" + ("" if inner == "s" else inner) if inner in ("s", "a") else "?"
+    return "?"
+
+
+_T_EQUIV = {}
+
+
+def _same_map_as_T(prog, Tpath):
+    """other id->variable functions with the same affine form as T (the hybrid encoder reuses the exp functions)"""
+    if Tpath in _T_EQUIV:
+        return
+    tb = None
+    for b in prog.lib_bodies():
+        if strip_generics(b.path) == Tpath:
+            tb = b
+    eq = set()
+    if tb is not None:
+        tv = eval_function(prog, tb, {1: Aff.sym("j")})
+        for b in prog.lib_bodies():
+            sig = prog.sigs.get(("lib", b.path))
+            if b.kind != "closure" and b.path.startswith("encodings::") and sig and sig["inputs"] == ["usize"] and sig["output"] == "usize":
+                if eval_function(prog, b, {1: Aff.sym("j")}) == tv and tv is not None:
+                    eq.add(strip_generics(b.path))
+    _T_EQUIV[Tpath] = eq
+
+
+def _norm(t, Tpath, Rpath):
+    lits = []
+    for s, k, n, m in t.lits:
+        if k[0] == "fn" and (k[1] == Tpath or k[1] in _T_EQUIV.get(Tpath, ())):
+            role = "T"
+        elif k[0] == "fn2" and k[1] == Rpath:
+            role = "R"
+        elif k[0] in ("fn", "closure", "table", "ivar", "fnopt", "dyn"):
+            role = "D"
+        elif k[0] in ("elem", "elem-clause", "cparam", "lparam"):
+            role = "E"
+        elif k[0] == "unk" and "deref" in str(k[1]):
+            role = "D"  # a variable number read out of a RefCell (lazily numbered variable)
+        else:
+            role = "?"
+        lits.append("%s%s%s%s" % (s, role, _norm_node(n) if role != "E" else "", "*" if m else ""))
+    per = "arg"
+    if isinstance(t.per, tuple):
+        per = "att" if _norm_node(t.per[1]) == "s" else ("att2" if _norm_node(t.per[1]) == "a" else "att?")
+    elif t.per == "loop":
+        per = "loop"
+    g = ""
+    for gg in t.guards:
+        if gg[0] == "same-node":
+            g = "|self-attack"
+            per = "att"
+        elif gg[0] == "different-node":
+            g = "|not-self-attack"
+            per = "att"
+    return "%s:[%s]%s" % (per, " ".join(sorted(lits)), g)
+
+
+CF = {"att:[-Ta -Ts]"}
+ADM = {"att:[+Da -Ts]"}
+COM = ADM | {"arg:[+Ts -Da*]"}
+DDEF = {"arg:[-Ds -Ts]", "att:[+Ds -Ta]", "arg:[+Ta* -Ds]"}
+RNG3 = {"arg:[+Rs -Ts]", "arg:[+Rs -Ds]", "arg:[+Ds +Ts -Rs]"}
+RNG2 = {"arg:[+Rs -Ts]", "arg:[+Ta* +Ts -Rs]"}
+EXPCOM = {"arg:[+Ts]", "arg:[-Ts]", "loop:[+E*]", "loop:[+E* -Ts]", "loop:[+Ts -E*]"}
+STABLE = {"arg:[+Ta* +Ts]", "att:[-Ts]|self-attack", "att:[-Ta -Ts]|not-self-attack"}
+# hybrid: per argument either the exp clauses or the aux_var complete clauses with lazily numbered D of the attackers
+HYB_AUX = {"att:[-D? -Ta]", "att:[+Taa* -D?]", "att2:[+D? -Taa]", "arg:[+Ts -Da*]", "att:[+Da -Ts]"}
+
+REFERENCE = {
+    ("aux_var", "ConflictFreeness", False): CF,
+    ("aux_var", "ConflictFreeness", True): CF | DDEF | RNG3,
+    ("aux_var", "Admissibility", False): ADM | DDEF,
+    ("aux_var", "Admissibility", True): ADM | DDEF | RNG3,
+    ("aux_var", "CompleteSemantics", False): COM | DDEF,
+    ("aux_var", "CompleteSemantics", True): COM | DDEF | RNG3,
+    ("exp", "ConflictFreeness", False): CF,
+    ("exp", "ConflictFreeness", True): CF | RNG2,
+    ("exp", "CompleteSemantics", False): EXPCOM,
+    ("exp", "CompleteSemantics", True): EXPCOM | RNG2,
+    ("stable", None, False): STABLE,
+    ("hybrid", None, False): EXPCOM | HYB_AUX,
+    ("hybrid", None, True): EXPCOM | HYB_AUX | RNG2 | {"arg:[+Rs -Ds]", "arg:[+Ds +Ts -Rs]"},
+}
+
+
+def rule_clause_templates(ctx):
+    prog = ctx.prog
+    r = ctx.rule(
+        "clause-templates",
+        "the clause shapes generated by each encoder mode (extracted symbolically: sign, variable family T/D/R, node self/attacker, per-argument or "
+        "per-attacker) are exactly those of the reference encodings the property names: a->not b / a->P_b / (AND P_b)->a / P_a<->OR(attackers) with "
+        "a->not P_a / range definitions / the stable encoding; a dropped clause, a dropped direction of a definition, a flipped polarity or a wrong "
+        "variable family or node changes the template set",
+    )
+    cx = cnf.Ctx(prog)
+    impls = [i for i in prog.impls_of_trait(ENCODER) if (i.get("self_adt") or "").startswith("encodings::")]
+    n = 0
+    for imp in sorted(impls, key=lambda i: i["self_ty"]):
+        name = imp["self_ty"].rsplit("::", 1)[-1]
+        fam = "aux_var" if "AuxVar" in name else ("exp" if name.startswith("Exp") else ("hybrid" if "Hybrid" in name else ("stable" if "Stable" in name else "?")))
+        a2l = _method(prog, imp, "arg_to_lit")
+        frv = _method(prog, imp, "first_range_var")
+        Tpath = Rpath = None
+        for s in a2l.calls():
+            t = prog.body_for_callee(callee_of(s), a2l)
+            if t is not None and t.ret_ty == "usize":
+                Tpath = strip_generics(t.path)
+        if frv is not None and frv.exits():
+            for s in frv.calls():
+                t = prog.body_for_callee(callee_of(s), frv)
+                if t is not None and t.ret_ty == "usize" and t.n_args == 2:
+                    Rpath = strip_generics(t.path)
+        _same_map_as_T(prog, Tpath)
+        for mname, with_range in (("encode_constraints", False), ("encode_constraints_and_range", True)):
+            mb = _method(prog, imp, mname)
+            if mb is None or not mb.exits():
+                continue
+            # roots per mode: arms of a match on the encoder's own mode enum, if any
+            roots = []
+            inner = [t for _, t in prog.callees(mb, include_closures=False, virtual_dispatch=False) if t.path.startswith("encodings::") and (t.name or "") == mname]
+            disp = inner[0] if inner else mb
+            arms = None
+            for sw in switch_sites(disp):
+                subj = switch_subject(disp, sw)
+                if subj and subj[1] and "EncodingType" in disp.local_ty(subj[0]["l"]):
+                    from .cli import arm_regions
+
+                    adt_path = disp.local_ty(subj[0]["l"]).replace("&", "").strip()
+                    adt = prog.adt(adt_path)
+                    idx = {str(v["idx"]): v["name"] for v in adt["variants"]} if adt else {}
+                    arms = {}
+                    for val, (bb, blocks) in arm_regions(disp, sw).items():
+                        clos = []
+                        for x in {bb} | blocks:
+                            for st in disp.blocks[x]["stmts"]:
+                                if st["k"] == "assign" and st["rv"]["k"] == "aggregate" and st["rv"]["agg"].get("kind") == "closure":
+                                    cb = prog.lib(st["rv"]["agg"]["path"])
+                                    if cb is not None:
+                                        clos.append(cb)
+                        arms[idx.get(val, val)] = clos
+            if arms is None:
+                roots.append((None, [disp]))
+            else:
+                for vname, clos in sorted(arms.items()):
+                    roots.append((vname, clos))
+            for vname, rs in roots:
+                key = (fam, vname, with_range)
+                want = REFERENCE.get(key)
+                anchor = "%s|%s|%s" % (name, vname or "-", "range" if with_range else "plain")
+                if want is None:
+                    r.violation(anchor, "no-reference", "no reference encoding for mode %s of %s: cannot analyse" % (key, name), mb.loc())
+                    continue
+                got = set()
+                where = {}
+                for root in rs:
+                    for t in cnf.templates(cx, root):
+                        k = _norm(t, Tpath, Rpath)
+                        got.add(k)
+                        where.setdefault(k, t)
+                n += 1
+                missing = sorted(want - got)
+                extra = sorted(got - want)
+                r.check(not missing and not extra, anchor, "missing=%s extra=%s" % (missing, extra), "%d clause templates match the reference encoding" % len(got), "clause templates of %s differ from the reference encoding: missing %s, unexpected %s" % (anchor, missing, [(e, str(where[e].site.loc())) for e in extra]), (where[extra[0]].site.loc() if extra else mb.loc()))
+    r.floor(n, 12, "encoder modes compared with their reference encoding")
+    # the defender sets feeding the product encoding
+    cds = [b for b in prog.lib_bodies() if b.kind != "closure" and b.path.startswith("encodings::") and b.ret_ty.startswith("(alloc::vec::Vec<alloc::vec::Vec<sat::sat_solver::Literal>>")]
+    if r.require_anchor(len(cds) == 1, "function computing the defender sets (returns (Vec<Vec<Literal>>, Vec<Vec<Literal>>))"):
+        b = cds[0]
+        cxb = cnf.Ctx(prog)
+        tpaths = set()
+        pushes = []
+        for s in b.calls():
+            if callee_decl(callee_of(s)) == "alloc::vec::Vec::push":
+                pushes.append(s)
+        conflict = None
+        defenders = None
+        for s in pushes:
+            els = cnf.clause_elements(cxb, b, s.node["args"][1])
+            desc = sorted("%s%s%s" % (sg, "V", _norm_def_node(nd)) + ("*" if m else "") for sg, kd, nd, m in els)
+            if desc == ["-Va", "-Vs"]:
+                conflict = s
+            elif desc == ["+Vaa*"]:
+                defenders = s
+        r.check(conflict is not None, b.id + "|conflict", "conflict-clause", "conflict clause [-self, -attacker] per attacker", "the per-attacker conflict clause of the product encoding is not [-self, -attacker]", b.loc())
+        r.check(defenders is not None, b.id + "|defenders", "defender-set", "defender set of an attacker = the attackers of that attacker (positive literals)", "the defender sets of the product encoding are not the positive literals of the attackers' attackers", b.loc())
+
+
+def _norm_def_node(n):
+    if isinstance(n, tuple) and n and n[0] == "lab":
+        return "s"
+    if isinstance(n, tuple) and n and n[0] == "attacker":
+        return "a" + (_norm_def_node(n[1]) if _norm_def_node(n[1]) != "s" else "")
+    return "?"
